@@ -10,6 +10,8 @@ use crate::precis_core::error::{Error, UnexpectedError};
 
 NOT_APPLICABLE = 'r == Err::<Cow<str>, Error>(Error::Unexpected(UnexpectedError::ProfileRuleNotApplicable))'
 
+INTO_S = ('REQ.into', "<S as IntoSpec<Cow<'a, str>>>::obeys_into_spec()")
+INTO_T = ('REQ.into', "<T as IntoSpec<Cow<'a, str>>>::obeys_into_spec()")
 S0 = "IntoSpec::<Cow<str>>::into_spec(s)@"
 
 stabilize = Fn(
@@ -54,8 +56,8 @@ stabilize = Fn(
 def module(repo):
     rules = ['width_mapping_rule', 'additional_mapping_rule', 'case_mapping_rule', 'normalization_rule', 'directionality_rule']
     return Module('profile', 'precis-core/src/profile.rs', [
-        Impl(r'pub\s+trait\s+Rules\b', [Fn(n, ret='r') for n in rules]),
-        Impl(r'pub\s+trait\s+Profile\b', [Fn('prepare'), Fn('enforce'), Fn('compare')]),
-        Impl(r'pub\s+trait\s+PrecisFastInvocation\b', [Fn('prepare'), Fn('enforce'), Fn('compare')]),
+        Impl(r'pub\s+trait\s+Rules\b', [Fn(n, ret='r', requires=[INTO_T]) for n in rules]),
+        Impl(r'pub\s+trait\s+Profile\b', [Fn('prepare', requires=[INTO_S]), Fn('enforce', requires=[INTO_S]), Fn('compare')]),
+        Impl(r'pub\s+trait\s+PrecisFastInvocation\b', [Fn('prepare', requires=[INTO_S]), Fn('enforce', requires=[INTO_S]), Fn('compare')]),
         stabilize,
     ], header=HEADER)
